@@ -3,7 +3,7 @@
    cell complex of HpxGeo.  One event per public call; the trace spec is total:
    an event the specification does not allow is consumed by recording its index
    in `bad`, so that the rest of the trace is still checked. *)
-EXTENDS HpxGeo, TLC, Json, IOUtils
+EXTENDS HpxRing, TLC, Json, IOUtils
 Rec == ndJsonDeserialize(IOEnv.TRACE)
 VARIABLES l, bad
 tvars == <<l, bad>>
@@ -43,12 +43,39 @@ EdgesOK(e) == LET N == Pow2(e.d)
                  /\ \A o \in Ordinals : IsSetSeq(e.side[o], sides[o]) /\ IsSetSeq(e.ipart[o], InternalSide(c, M, o))
                  /\ \A d \in Cardinals : ToSet(e.corner[d]) = corners[d] /\ e.icorner[d] = InternalCorner(c, M, d)
 
+(* ---- RING scheme (C10, C11) ---- *)
+TolPos == 100                      \* 1e-13 rad, in units of 1e-15 rad
+CellOfFace(f) == <<f[1], f[2] \div 2, f[3] \div 2>>
+ToRingOK(e) == LET N == Pow2(e.d) IN e.p = 0 /\ e.r = ToRing(N, e.c) /\ e.back = e.c
+FromRingOK(e) == LET N == Pow2(e.d) IN e.p = 0 /\ InRange(N, e.c) /\ ToRing(N, e.c) = e.r
+RingNestedCentreOK(e) == LET N == Pow2(e.d) IN
+                         /\ e.p = 0 /\ Len(e.cf) = 3 /\ FaceKind(e.cf) = "cell"
+                         /\ ToRing(N, CellOfFace(e.cf)) = e.r /\ e.dev <= TolPos
+RingHashOK(e) == LET N == e.n IN
+                 /\ e.p = 0 /\ BigLess(e.r, NHashBig(N))
+                 /\ \E cl \in StarFace(N, e.f) : ToRing(N, cl) = e.r
+                 /\ e.same = 1 /\ e.dx \in 0..1000000 /\ e.dy \in 0..1000000
+                 /\ (e.back = -1 \/ (e.back >= 0 /\ e.back <= TolPos))
+RingCenterOK(e) == LET N == e.n IN
+                   /\ e.p = 0 /\ Len(e.cf) = 3 /\ FaceKind(e.cf) = "cell"
+                   /\ LET cl == CellOfFace(e.cf) IN
+                      /\ ToRing(N, cl) = e.r /\ e.hc = e.r
+                      /\ Len(e.vf) = 4 /\ \A k \in 1..4 : FaceKind(e.vf[k]) = "node"
+                      /\ {Canon(N, CellOfFace(e.vf[k])) : k \in 1..4} = VSet(N, cl)
+RingBadOK(e) == e.pc = 1 /\ e.pv = 1 /\ e.ps = 1 /\ e.ph = 1 /\ e.phd = 1
+
 Check(e) == CASE e.ev = "hash" -> HashOK(e)
               [] e.ev = "hash_bad" -> HashBadOK(e)
               [] e.ev = "hier" -> HierOK(e)
               [] e.ev = "neigh" -> NeighOK(e)
               [] e.ev = "neigh_bad" -> NeighBadOK(e)
               [] e.ev = "edges" -> EdgesOK(e)
+              [] e.ev = "to_ring" -> ToRingOK(e)
+              [] e.ev = "from_ring" -> FromRingOK(e)
+              [] e.ev = "ring_nested_centre" -> RingNestedCentreOK(e)
+              [] e.ev = "ring_hash" -> RingHashOK(e)
+              [] e.ev = "ring_center" -> RingCenterOK(e)
+              [] e.ev = "ring_bad" -> RingBadOK(e)
               [] OTHER -> FALSE
 
 Init == l = 1 /\ bad = <<>>
